@@ -244,7 +244,7 @@ def execute_ovld(scen):
                          "expected": ref[i], "regs": regs, "symptom": symptom(probes[i], ref[i]),
                          "level": "ovld"}
     return {"violation": violation, "digest": stable_hash(trace), "nobs": nobs,
-            "nontrivial": mut_after_obs, "final_regs": len(regs)}
+            "nontrivial": mut_after_obs, "final_regs": len(regs), "trace": trace}
 
 
 # --------------------------------------------------------------------------
